@@ -162,6 +162,13 @@ fn mirror(ha: &mut History, hb: &mut History, _mirrored: &mut usize, r: &mut Rep
         r.count(&format!("twin:{}:{}", sa.op.kind(), sa.path));
         let path_b = reply_path(&hb.w, &sb.out);
         let mut diffs: Vec<String> = vec![];
+        if !sa.ok && sb.out.ok && sa.err.contains("transfer failure") {
+            // the cw20 call failed in a token transfer (typically the caller cannot pay what would be
+            // pulled); "what the cw20 deployment would pull" is then undefined and the native call,
+            // which attached nothing, is not comparable: premise unsatisfiable, history ends here
+            r.count("skip:cw20-call-failed-in-a-transfer");
+            return true;
+        }
         if sa.ok != sb.out.ok {
             diffs.push(format!("outcome cw20={} ({}) native={} ({})", if sa.ok { "ok" } else { "err" }, sa.err, if sb.out.ok { "ok" } else { "err" }, sb.out.err_text()));
         } else {
